@@ -98,48 +98,93 @@ def skip_rule(P, D, rep, rid, dw, wcls):
 
 
 def reemit_rule(P, D, rep, rid, dw, remap):
-    from sa.values import ADict, Unk
-    go = dw.find_method('_get_options')
-    if go is None:
-        raise AnalysisError('DiffXDOMWriter._get_options not found (anchor vanished)')
+    """Abstractly run the DOM writer's per-section entry on a tree in which one section stores an unknown value for
+    every typed option; the streaming-writer call made for that section (recorded by stubs) must receive each
+    stored value, under the renamed keyword, on every path."""
+    from sa.values import ADict, AObj, Unk
+    wcls = P.cls('pydiffx.writer', 'DiffXWriter')
+    entry = dw.find_method('write_stream')
+    if entry is None:
+        raise AnalysisError('DiffXDOMWriter.write_stream not found (anchor vanished)')
+    wfuncs = [m for n, m in wcls.methods.items() if n.startswith(('write_', 'new_')) or n == '__init__']
+    getters = set()
+    for cname in SECTION_CLASSES:
+        for c in D.classes[cname].repo_mro():
+            if 'content' in c.props and c.props['content'].get('get') is not None:
+                getters.add(c.props['content']['get'])
     for cname in SECTION_CLASSES:
         cls = D.classes[cname]
-        if cname == 'DiffX':
-            continue
-        sname = P.fold_class_attr(cls, 'section_name')
+        sname = P.fold_class_attr(cls, 'section_name') if cname != 'DiffX' else None
         rm = (remap or {}).get(sname, {})
         I = Interp(P)
         topts = sorted(typed_options(P, D, cls))
         dropped = set()
         npaths = 0
+        calls = []
+
+        def rec(I_, fi_, args, kwargs, node, calls=calls):
+            calls.append((fi_.name, list(args), dict(kwargs)))
+            return None
+        for m in wfuncs:
+            I.stubs[m.qualname] = rec
+
+        contents = {}
+
+        def content_stub(I_, fi_, args, kwargs, node, contents=contents):
+            key = id(args[0])
+            if key not in contents:
+                u = Unk('content', taint=['ARG'])
+                u.facts.add('truthy')
+                contents[key] = u
+            return contents[key]
+        for g in getters:
+            I.stubs[g.qualname] = content_stub
+        state_ = {}
+        want = '__init__' if cname == 'DiffX' else '%s%s' % ('new_' if cname in CONTAINER else 'write_', sname)
 
         def thunk():
+            del calls[:]
+            contents.clear()
             objs = D.build_tree(I)
             o = objs[cname]
+            state_['o'] = o
             vals = {k: Unk('stored:%s' % k, taint=['ARG']) for k in topts}
             o.attrs['options'] = ADict(dict(vals), name='options')
+            root = objs['DiffX']
+            if o is not root:
+                # the file's own encoding is unknown too (a section's value may or may not equal it)
+                root.attrs['options'] = ADict({'version': '1.0', 'encoding': Unk('stored:main-encoding', taint=['ARG'])}, name='options')
             w = I.instantiate(dw, [], {}, None)
+            from sa.values import AStream
             I.frames = []
-            res = I.call_function(go, [w, o], {}, None, self_cls=dw)
-            return vals, res
+            I.call_function(entry, [w, root, AStream('out', taint=())], {}, None, self_cls=dw)
+            return vals, list(calls)
         for path in I.explore(thunk):
             npaths += 1
-            if npaths > 4000:
-                raise AnalysisError('too many paths in _get_options')
+            if npaths > 6000:
+                raise AnalysisError('too many paths in the DOM writer for %s' % cname)
             if path.outcome != 'return':
                 continue
-            vals, res = path.value
-            if not isinstance(res, ADict):
-                raise AnalysisError('_get_options does not return a mapping')
+            vals, got = path.value
+            mine = [g for g in got if g[0] == want]
+            if want.startswith('write_'):
+                c_ = contents.get(id(state_['o']))
+                mine = [g for g in mine if len(g[1]) > 1 and g[1][1] is c_]
+            if len(mine) != 1:
+                raise AnalysisError('DOM writer: expected one %s call for a %s, saw %s' % (want, cname, [g[0] for g in got]))
+            kw = mine[0][2]
             for k, v in vals.items():
                 tk = rm.get(k, k)
-                if res.items.get(tk) is not v:
+                if kw.get(tk) is not v:
                     dropped.add(k)
+        if not npaths:
+            raise AnalysisError('DOM writer: no path for %s' % cname)
         if dropped:
-            rep.violation(rid, 'option-dropped:%s:%s' % (cname, ','.join(sorted(dropped))), go.loc(),
-                          'for %s sections the DOM writer can drop the stored option(s) %s depending on their value (e.g. a falsy '
-                          'value such as indent=0): the streaming writer\'s default is applied instead and the file differs from '
-                          'the tree' % (cname, sorted(dropped)), path=[dw.name + '._get_options'])
+            rep.violation(rid, 'option-dropped:%s:%s' % (cname, ','.join(sorted(dropped))), entry.loc(),
+                          'for %s sections the DOM writer can call %s without the stored option(s) %s, depending on their value (e.g. a '
+                          'falsy value such as indent=0, or a value equal to some other section\'s): the streaming writer\'s default / '
+                          'inherited value is applied instead and the file differs from the tree' % (cname, want, sorted(dropped)),
+                          path=[dw.name + '.write_stream'])
         else:
             rep.ok(rid, cname, {'options': topts, 'paths': npaths})
 
